@@ -1,6 +1,7 @@
 """C11 - schemas built from SDL contain exactly what the SDL declares."""
 import random
 
+from vf import engine_p
 from vf import ref_sdl as S6
 from vf import schemas
 from vf.report import MachineryDefect, Run
@@ -149,6 +150,7 @@ def check(tier, seed):
                 run.violation("build_schema:only-schema-errors", "%s: raised %r instead of a schema / SDL error" % (label, e), dict(w, exc=type(e).__name__), True)
     if nontrivial == 0:
         raise MachineryDefect("no schema built")
+    engine_p.run(run, "C11")
     run.cov["evaluations"] = n
     run.cov["distinct_nontrivial"] = nontrivial
     run.cov["rule"] = "%d valid type-system documents (base schema, %d edited variants, recursion / defaults / descriptions / deprecations / schema definitions) " \
@@ -158,7 +160,7 @@ def check(tier, seed):
                                          "bound": "%d documents" % n})
     run.sample({"sdl": EXTRA_VALID[1], "contract": "describe(build_schema(sdl)) == describe_sdl(sdl), closed(schema)"})
     run.trusted("vf/ref_sdl.py (declarative SDL reader) and vf/ref_coerce.py for default values")
-    run.assume("no deductive obligation: the builder mutates object graphs through lazy thunks (outside the VC generator's subset)")
+    run.assume("the type builder mutates object graphs through lazy thunks (outside every engine's subset): only the definition collector carries path obligations")
     return run.finish("other", "bounded stand-in: structural equality between what the SDL declares (declarative reader) and the built schema, over generated "
                                "documents, orders and extension splits; invalid documents raise only schema / SDL errors",
                       checker_cmd="./check C11 --tier %s" % tier)
